@@ -95,7 +95,8 @@ pub fn nn(g: &G) -> bool {
 // ---- node groups --------------------------------------------------------------------------------
 
 pub fn leaves_core() -> Vec<G> {
-    vec![Just('a'), Just('b'), JustSeq('a', 'b'), Any, OneOf("ab"), NoneOf("a"), End, Empty]
+    // Select("bc!"): the selector written with the select! / select_ref! macro, overlapping arms told apart by guards
+    vec![Just('a'), Just('b'), JustSeq('a', 'b'), Any, OneOf("ab"), NoneOf("a"), Select("bc!"), End, Empty]
 }
 pub fn leaves_full() -> Vec<G> {
     let mut v = leaves_core();
